@@ -51,7 +51,7 @@ CRUCIAL = ("file.close", "path.rename", "path.unlink", "file.open", "path.replac
 
 def plan(tier):
     if tier == "quick":
-        return {"runs": 96, "budget_s": 45, "run_timeout_s": 300, "det_pairs": 2}
+        return {"runs": 96, "budget_s": 45, "run_timeout_s": 300, "det_pairs": 6}
     return {"runs": 600, "budget_s": 600, "run_timeout_s": 2400, "det_pairs": 2}
 
 
@@ -84,9 +84,7 @@ def make_trace(seed, tier, idx=None):
         t["tdms"] = r.choice(["single", "single", "dir"])
         t["fixture"] = r.sample(TDMS_FIXTURES[:2] if tier == "quick" else TDMS_FIXTURES, 2)
         t["opts"] = {"compute_features": r.random() < 0.25}
-    # (one basin definition per input: files with two or more definitions cannot be copied at
-    # all on this tree - see DESIGN.md, C08 finding - which would leave nothing to interrupt)
-    t["basin"] = r.choice(["file", "internal"]) if (task in ("compress", "repack", "condense", "split") and r.random() < 0.35) else None
+    t["basin"] = r.choice(["file", "internal", "both"]) if (task in ("compress", "repack", "condense", "split") and r.random() < 0.35) else None
     t["sample_seed"] = r.randrange(1 << 30)
     return t
 
@@ -142,10 +140,10 @@ class Workload:
                 hw.store_metadata(m.meta)
                 for f, v in m.feats.items():
                     hw.store_feature(f, v)
-                if t.get("basin") == "file":
+                if t.get("basin") in ("file", "both"):
                     hw.store_basin(basin_name="origin", basin_type="file", basin_format="hdf5",
                                    basin_locs=["in0.rtdc"], basin_feats=["area_um", "pos_x"], verify=False)
-                else:
+                if t.get("basin") in ("internal", "both"):
                     hw.store_basin(basin_name="internal", basin_type="internal", basin_format="h5dataset",
                                    basin_locs=["basin_events"], basin_feats=["userdef1"],
                                    basin_map=np.arange(t["n"], dtype=np.uint64) % 3,
@@ -383,7 +381,9 @@ def run(trace, ctx):
                     len(ds["contour"])
                 else:
                     ds[f][:]
-    ctx.log("ref", f"N={len(labels)} outputs={len(outputs)}", seeds.short_hash([ref_digest[k] for k in outputs]))
+    # (the reference digest itself is not logged: exported basin definitions contain the absolute scratch path,
+    #  which depends on the process id; within one run reference and faulted executions share the path)
+    ctx.log("ref", f"N={len(labels)} outputs={len(outputs)}")
     # stale complete outputs: the reference outputs of the same task at an earlier virtual time
     stale_digest = {}
     if t["prestate"] in ("stale_out", "both"):
